@@ -170,7 +170,9 @@ def check(case):
 def _project(case):
     prog = copy.deepcopy(case["program"])
     normalize(prog)
-    return prog, disk.Project(prog)
+    # feature file names may contain characters that mean something to glob (legal file names)
+    names = dict((int(k), v) for k, v in (case.get("fnames") or {}).items())
+    return prog, disk.Project(prog, names=names)
 
 
 def check_lines(res, case):
@@ -218,7 +220,19 @@ def check_lines(res, case):
                     features = parse_features([FileLocation(path, ln)])
                     run_prog = copy.deepcopy(prog)
                     run_prog["cfg"] = {}
-                    run = run_program(run_prog, features=features)
+
+                    def setup(runner, plan):
+                        if case.get("autoretry"):
+                            # the documented auto-retry recipe (environment.py) next to a location selection
+                            from behave.contrib.scenario_autoretry import patch_scenario_with_autoretry
+                            from behave.model import ScenarioOutline
+                            for f in runner.features:
+                                for s in f.walk_scenarios(with_outlines=True):
+                                    if isinstance(s, ScenarioOutline) or getattr(s, "_row", None) is None:
+                                        patch_scenario_with_autoretry(s, max_attempts=2)
+                    run = run_program(run_prog, features=features, setup=setup)
+                    if case.get("autoretry"):
+                        res.label("run-sample:auto-retry")
                     if run.escaped is not None:
                         res.fail("C10.run.escape", "run() raised %r" % (run.escaped,))
                     else:
@@ -301,6 +315,8 @@ def check_list(res, case):
                 locations = collect_feature_locations(args)
                 features = parse_features(locations)
                 res.label("via-args")
+                if case.get("fnames"):
+                    res.label("via-args:glob-characters-in-file-name")
             if len(features) != len(order):
                 res.fail("C10.list.features", "%d features for %d files" % (len(features), len(order)))
                 return
@@ -398,6 +414,10 @@ def doc_program(draw, nfeatures=1, min_items=1):
                 for sub in subs:
                     if draw(st.integers(0, 3)) == 0:
                         sub["tags"] = [draw(st.sampled_from(["setup", "teardown"]))]
+        if draw(st.integers(0, 5)) == 0:
+            # @setup / @teardown on a rule or the feature: only a scenario's OWN tag exempts it from the selection
+            target = draw(st.sampled_from([f] + [it for it in f["items"] if it["k"] == "r"]))
+            target["tags"] = list(target["tags"]) + [draw(st.sampled_from(["setup", "teardown"]))]
         if draw(st.booleans()):
             f["noise"] = draw(st.lists(st.integers(0, 200), min_size=1, max_size=8))
         if draw(st.booleans()):
@@ -412,10 +432,14 @@ def doc_program(draw, nfeatures=1, min_items=1):
     return {"features": feats, "cfg": {}}
 
 
+FNAMES = [None, None, "f0[1].feature", "f0 x.feature", "f0*.feature", "f0?.feature"]
+
+
 def lines_case():
-    return st.builds(lambda p, t, r: {"kind": "lines", "program": p, "triples": t, "run_line": r},
+    return st.builds(lambda p, t, r, ar, fn: dict({"kind": "lines", "program": p, "triples": t, "run_line": r, "autoretry": ar},
+                                                 **({"fnames": {"0": fn}} if fn else {})),
                      doc_program(), st.lists(st.lists(st.integers(0, 60), min_size=3, max_size=3), max_size=4),
-                     st.integers(0, 60))
+                     st.integers(0, 60), st.sampled_from([False, False, True]), st.sampled_from(FNAMES))
 
 
 @st.composite
@@ -427,10 +451,15 @@ def list_case(draw):
         fi = draw(st.integers(0, n - 1))
         lines = draw(st.lists(st.one_of(st.none(), st.integers(0, 60), st.integers(0, 60)), min_size=1, max_size=3))
         entries.append([fi, lines])
-    return {"kind": "list", "program": prog, "entries": entries,
+    case = {"kind": "list", "program": prog, "entries": entries,
             "via": draw(st.sampled_from(["list", "list", "args"])),
             "listdir": draw(st.sampled_from(["", "", "lists", "features"])),
             "deco": draw(st.lists(st.integers(0, 23), min_size=1, max_size=4))}
+    if case["via"] == "args" and draw(st.booleans()):
+        # command-line arguments name files literally (entries of a list file may be glob patterns: not used there)
+        k = draw(st.integers(0, n - 1))
+        case["fnames"] = {str(k): draw(st.sampled_from(["f%d[1].feature", "f%d x.feature", "f%d[ab].feature"])) % k}
+    return case
 
 
 LOC_PARTS = ["features/a.feature", "x.feature", "dir with space/b.feature", "a:b.feature", "C:/x/y.feature", "é.feature",
@@ -463,7 +492,8 @@ def explore(rec):
 def required_labels(tier):
     return ["entity:feature", "entity:rule", "entity:outline", "entity:row", "entity:scenario", "setup/teardown",
             "noise", "all-pairs(doc<=12)", "run-sample", "via-listfile:subdir", "via-listfile:cwd", "via-args",
-            "listfile:indented-entry", "files:2", "locparse", "name", "name:row-selected", "scenario-names-not-unique"]
+            "listfile:indented-entry", "files:2", "locparse", "name", "name:row-selected", "scenario-names-not-unique",
+            "via-args:glob-characters-in-file-name", "run-sample:auto-retry"]
 
 
 def _f12(case, detail, info):
